@@ -15,9 +15,10 @@ Record mon := mkMon {
   m_syncs : list (nat * wref);                 (* Synchronize calls that have not returned *)
   m_supplied : list (N * resp);                (* (digest, response) handed in by workers *)
   m_learners : list (N * learner);             (* learners that are owed a terminal call *)
-  m_live : list nat }.                         (* calls that have not returned *)
-#[export] Instance eta_mon : Settable _ := settable! mkMon <m_streams; m_syncs; m_supplied; m_learners; m_live>.
-Definition mon0 : mon := mkMon [] [] [] [] [].
+  m_live : list nat;                           (* calls that have not returned *)
+  m_lastsync : list (wref * Z) }.              (* when each worker's latest Synchronize call returned *)
+#[export] Instance eta_mon : Settable _ := settable! mkMon <m_streams; m_syncs; m_supplied; m_learners; m_live; m_lastsync>.
+Definition mon0 : mon := mkMon [] [] [] [] [] [].
 
 (* ---- helpers on dumps -------------------------------------------------------------- *)
 Definition all_scqs (d : dump) : list (pkey * d_scq) :=
@@ -369,7 +370,12 @@ Definition c02_obs (post : dump) (acc : mon * string) (o : obs) : mon * string :
       (m <| m_live ::= remove_nat c |>, if String.eqb err "" then e else err)
     | None => (m <| m_live ::= remove_nat c |> <| m_syncs ::= filter (fun '(c', _) => negb (Nat.eqb c c')) |>, err)
     end
-  | OSync c _ _ => (m <| m_live ::= remove_nat c |> <| m_syncs ::= filter (fun '(c', _) => negb (Nat.eqb c c')) |>, err)
+  | OSync c _ _ =>
+    let m := match find (fun '(c', _) => Nat.eqb c c') (m_syncs m) with
+             | Some (_, w) => m <| m_lastsync := aset wref_eqb w (d_now post) (m_lastsync m) |>
+             | None => m
+             end in
+    (m <| m_live ::= remove_nat c |> <| m_syncs ::= filter (fun '(c', _) => negb (Nat.eqb c c')) |>, err)
   | _ => acc
   end.
 
@@ -446,9 +452,27 @@ Definition p_step (cfg : config) (t0 : Z) (m : mon) (pre : dump) (e : event) (o 
                    end
                  | _ => ""
                  end) o) in
+  (* C02: "worker disappeared" is only a stated cause if the worker really was silent for the worker timeout *)
+  let e_lost := first_nonempty (map (fun o =>
+                  match do_resp o, find_dop pre (do_name o) with
+                  | Some r, Some o0 =>
+                    match do_resp o0, do_worker o0 with
+                    | None, Some wk =>
+                      if scheduler_made r && (r_code r =? cUNAVAILABLE)%N then
+                        let w := mkW (do_sk o0) (fst wk) (snd wk) in
+                        match aget wref_eqb w (m_lastsync m0) with
+                        | Some t => if existsb (fun '(_, w') => wref_eqb w w') (m_syncs m0) || (d_now post <? t + cf_worker_timeout cfg)
+                                    then "C02:worker-declared-lost-before-its-timeout" else ""
+                        | None => ""
+                        end
+                      else ""
+                    | _, _ => ""
+                    end
+                  | _, _ => ""
+                  end) (d_ops post)) in
   let e_exec := match e with
                 | EStartExecute c a _ => first_nonempty [c07_exec o; c03_exec pre post a; c05_exec cfg t0 pre post c a o]
                 | _ => ""
                 end in
-  (m, first_nonempty [c01_dump post; e_sync; e_stream; c03_dump post; c04_dump post; e_exec; c05_assign pre post;
+  (m, first_nonempty [c01_dump post; e_sync; e_stream; e_lost; c03_dump post; c04_dump post; e_exec; c05_assign pre post;
                       c06_dump m post; c06_final m post; e_arm; e_learn; c07_background post; c07_learners_match m post]).
